@@ -4,6 +4,7 @@ import re
 from . import analysis as A
 from . import roles
 from . import c08
+from . import writers as W
 from .c04 import role_get, role_is_finished, _reaches_block
 from .mir import Site, Unverifiable, callee_is, callee_path, const_int, op_fn, op_local, op_place, place_fields, place_str
 
@@ -254,8 +255,24 @@ def r4(F, R):
             else:
                 bsl = A.slice_back(ing, [b["b"]], stop_calls=[r"Future::poll$"])
                 amt = bsl.has_call(what) and not bsl.has_call(*[w[2] for n2, w in want.items() if w[1] == "call" and w[2] != what])
-            ok = arm_ok and same and bool(amt)
-            why = f"arm={arm_ok} accumulates-self={same} amount={bool(amt)}"
+            # on every path through that arm (also the one that leaves the loop)
+            every = True
+            ents = [(sw, tg) for sw, tg in W.arm_entry_targets(ing, "std::result::Result", arm)
+                    if "gherkin::Feature" in ing.locals[A.canon_place(ing, A.local_def_desc(ing, op_local(ing.blocks[sw]["term"]["discr"]))[1])["l"]]]
+            for sw, tg in ents:
+                seen, work = set(), [tg]
+                exits = {nx[0].poll_site.bb} | ({pf_send[0][0].bb} if pf_send else set())
+                while work:
+                    x = work.pop()
+                    if x in seen or x == s_i.bb:
+                        continue
+                    seen.add(x)
+                    if x in exits:
+                        every = False
+                        break
+                    work.extend(ing.succ[x])
+            ok = arm_ok and same and bool(amt) and every and bool(ents)
+            why = f"arm={arm_ok} accumulates-self={same} amount={bool(amt)} on-every-path-of-the-arm={every}"
         R.check(ok, f"summary-field/{name}", incs[0][0] if incs else s_a, f"{name} updated once per item in the {arm} arm", f"ParsingFinished.{name} is not accumulated as specified ({why})")
     R.floor(9)
 
